@@ -333,7 +333,7 @@ func histRun(prop string) func(c histCase, o *hx.Obs) {
 			} else if deletes > 0 {
 				afterDelete = true
 			}
-			if op.Kind == "upsert" {
+			if op.Kind == "upsert" || op.Kind == "set" {
 				for _, ch := range root.Choices() {
 					a, b := dm.SelectedCase(ch, before), dm.SelectedCase(ch, op.Src)
 					if a != nil && b != nil && a != b {
